@@ -45,3 +45,30 @@ Fixpoint smismatches_from (m : mtable) (i : nat) (cs : list scase) : list nat :=
   end.
 
 Definition mismatches (m : mtable) (cs : list scase) : list nat := smismatches_from m 0 cs.
+
+(* ---- histories on one table: selections interleaved with index-column edits ---- *)
+
+Definition hobs_eqb (a b : hobs) : bool :=
+  match a, b with
+  | HViews r i m, HViews r' i' m' =>
+      sres_eqb (leqb Nat.eqb) r r' && sres_eqb (leqb Z.eqb) i i' && sres_eqb (leqb Bool.eqb) m m'
+  | HDone, HDone => true
+  | HFail e, HFail e' => serr_eqb e e'
+  | _, _ => false
+  end.
+
+(* table, operations, what the implementation showed *)
+Definition hcase := (stable * list hop * list hobs)%type.
+
+Definition hcase_ok (m : mtable) (c : hcase) : bool :=
+  let '(t, ops, exp) := c in
+  leqb hobs_eqb (hrun (matches_of m) (fun l => l) t ops) exp &&
+  leqb hobs_eqb (hrun (matches_of m) (@rev N) t ops) exp.
+
+Fixpoint hmismatches_from (m : mtable) (i : nat) (cs : list hcase) : list nat :=
+  match cs with
+  | [] => []
+  | c :: rest => if hcase_ok m c then hmismatches_from m (S i) rest else i :: hmismatches_from m (S i) rest
+  end.
+
+Definition hmismatches (m : mtable) (cs : list hcase) : list nat := hmismatches_from m 0 cs.
